@@ -2,6 +2,7 @@
 # benigntest.sh <patch.diff> <Cxx>... : applies a behaviour-preserving change to the repository
 # (VERIF_REPO, default /repo; must be clean), runs the named quick checks (all twenty if none named) and
 # reports every check that does not exit 0 - used to look for false alarms and inconclusive answers.
+export VERIF_NO_EVIDENCE=1   # evidence files describe runs on the unchanged tree only
 REPO=${VERIF_REPO:-/repo}
 cd "$(dirname "$0")"
 p=$1; shift
